@@ -4,6 +4,7 @@ Line-protocol driver for the MT model and the C15 monitor.
   monitor <ops> <obs>    : evaluates Spec.C15 on the implementation's observation stream
 -/
 import Irismod.Spec.C15
+import Irismod.Model.MtGenesis
 
 namespace Driver.Mt
 open Irismod Irismod.Mt Irismod.Line
@@ -73,6 +74,23 @@ def parseState (t : List String) : Option State := do
     | _ => none
   return s
 
+/-- the exported genesis document in ITS OWN order (no sorting here: the order is part of what is compared) -/
+def showGenesis (g : MtGenesis.Genesis) : String :=
+  let cols := g.collections.map fun c =>
+    let mts := c.mts.map fun m => s!"{m.id}:{m.supply.toNat}:{undash m.data}"
+    s!"{c.id}:{c.denom.owner}:{undash c.denom.name}:{undash c.denom.data}[{joinWith ";" mts}]"
+  let owners := g.owners.map fun o =>
+    let ds := o.denoms.map fun d =>
+      let bs := d.balances.map fun b => s!"{b.mtId}:{b.amount.toNat}"
+      s!"{d.denomId}({joinWith ";" bs})"
+    s!"{o.address}[{joinWith ";" ds}]"
+  s!"cols={joinWith "|" cols} owners={joinWith "|" owners}"
+
+def validateWord (g : MtGenesis.Genesis) : String :=
+  match MtGenesis.validateGenesis g with
+  | .ok _ => "ok"
+  | .error _ => "err"
+
 def resWord : Except Err State → String
   | .ok _ => "ok"
   | .error (.reject _) => "rej"
@@ -82,6 +100,14 @@ def modelLine (s : State) (line : String) : State × String :=
   let t := tokens line
   match t with
   | ["mt", "reset"] => ({}, "ok " ++ showState {})
+  | ["mt", "export"] =>
+    let g := MtGenesis.exportGenesis s
+    (s, s!"ok validate={validateWord g} {showGenesis g}")
+  | ["mt", "reimport"] =>
+    -- InitGenesis(ExportGenesis(state)) on an emptied module store
+    match MtGenesis.importGenesis (MtGenesis.exportGenesis s) with
+    | .ok s' => (s', "ok " ++ showState s')
+    | .error _ => (s, "panic " ++ showState s)
   | _ =>
     match parseOp t with
     | none => (s, "bad-op")
@@ -114,6 +140,15 @@ def runMonitor (ops obs : Array String) : IO Unit := do
     | ["mt", "reset"] =>
       match parseState o with
       | some s => pre := s
+      | none => out.putStrLn s!"mon C15 FAIL clause=obs-parse line={i+1}"; fails := fails + 1
+    | ["mt", "export"] => pure ()
+    | ["mt", "reimport"] =>
+      -- a re-import must preserve every balance, supply, class and token (C12 for MT; C15's invariant again)
+      match parseState o with
+      | some post =>
+        if !(Spec.C15.sameState pre post) || o.head? != some "ok" then
+          out.putStrLn s!"mon C15 FAIL clause=reimport-changed-state line={i+1}"; fails := fails + 1
+        pre := post
       | none => out.putStrLn s!"mon C15 FAIL clause=obs-parse line={i+1}"; fails := fails + 1
     | _ =>
       match parseOp t, parseState o with
